@@ -19,6 +19,8 @@ def monitors(ctx):
 
 def run(ctx):
     monitor.enable(*monitors(ctx))
+    from .. import w_suite
+    w_suite.maybe(ctx)      # thorough tier: the repository's own tests under this property's monitors
     ctx.floor('C02.embed_calls', 500)
     ctx.floor('C02.exactness_checked', 200)
     ctx.floor('C02.law_fold', 20)
